@@ -147,9 +147,40 @@ def sched_source(pm, row, arg):
     return pm.eng.read_rp(models._St(row.store), arg[1], arg[2])
 
 
-def is_scheduled_set(pm_or_roles, term, sched_id):
+def _fresh_container(term):
+    """the `X::new()` / `default()` / `with_capacity()` call a loop-filled local container starts from"""
+    for x in T.subterms(term):
+        if x[0] == "call" and not x[1].startswith(("havoc:", "fold:")) and sym.strip_all_generics(x[1]).split("::")[-1] in ("new", "default", "with_capacity") \
+                and ("HashSet" in x[1] or "BTreeSet" in x[1]):
+            return (x[1], x[3])
+    return None
+
+
+def is_scheduled_set(pm, term, sched_id, eng=None, loop_rows=None):
+    """the exclusion set is scheduled_for_deletion_nodes() collected — or a fresh set filled, unconditionally, by a loop over it"""
     calls = [s for s in T.subterms(term) if s[0] == "call"]
-    return any(c[1] == sched_id for c in calls) and all(("dead_nodes" not in c[1]) for c in calls)
+    if any(c[1] == sched_id for c in calls) and all(("dead_nodes" not in c[1]) for c in calls):
+        return True
+    eng = eng or getattr(pm, "eng", None)
+    loop_rows = loop_rows if loop_rows is not None else getattr(pm, "loop_rows", [])
+    fresh = _fresh_container(term)
+    if fresh is None or not loop_rows:
+        return False
+    fills = 0
+    for row, adds in T.collection_items(eng, loop_rows):
+        for e in row.calls():
+            if sym.strip_all_generics(e[1]).split("::")[-1] == "insert" and ("HashSet" in e[1] or "BTreeSet" in e[1]):
+                recv = T.resolve_locals(eng, row.store, e[2][0])
+                if _fresh_container(recv) != fresh:
+                    continue
+                key = T.resolve_locals(eng, row.store, e[2][1])
+                from_sched = any(x[0] == "call" and x[1] == sched_id for x in T.subterms(key))
+                extra = [c for c in row.cond if c[0] == "truth"]
+                stale = [c for c in extra if any(x[0] == "call" and x[1] == sched_id for x in T.subterms(T.resolve_locals(eng, row.store, c[1])))]
+                if not from_sched or stale:
+                    return False
+                fills += 1
+    return fills > 0
 
 
 def r01_2(ctx, rep, roles, pm):
@@ -170,14 +201,17 @@ def r01_2(ctx, rep, roles, pm):
     # create_syn_message
     cs = roles.create_syn
     eng = sym.Engine(fx, no_inline={roles.chitchat_compute_digest["id"], sched["id"]})
-    for row in eng.table(cs["id"], arg_terms={1: ("ptr", ("S", "self"), ())}):
+    cs_rows = eng.table(cs["id"], arg_terms={1: ("ptr", ("S", "self"), ())})
+    for row in cs_rows:
+        if row.exit == "backedge":
+            continue
         for e in row.calls():
             if e[1] == roles.chitchat_compute_digest["id"]:
                 n += 1
                 src = e[2][1]
                 if src[0] == "ptr":
                     src = eng.read_rp(models._St(row.store), src[1], src[2])
-                rep.obligation(is_scheduled_set(pm, src, sched["id"]), "C01/R01.2/exclusion-set/create_syn",
+                rep.obligation(is_scheduled_set(pm, src, sched["id"], eng=eng, loop_rows=[x for x in cs_rows if x.exit == "backedge"]), "C01/R01.2/exclusion-set/create_syn",
                                "create_syn_message builds its digest with exclusion set %s" % sym.fmt(src)[:100], where(cs, e[3][1]),
                                sample="create_syn: compute_digest(exclusion = collect(scheduled_for_deletion_nodes()))")
     rep.floor("exclusion-set-sites", n, 4)
